@@ -11,7 +11,8 @@
    crash- and hang-freedom of the real code is exercised (recover, poisoned capacity, hostile length fields,
    watchdog). *)
 From Verif Require Import Base.Bytes Model.Types Model.GoLite Model.Detect Gen.TreeData Gen.SigData
-  Model.Zip Model.Ole Model.Mkv Model.Tar Model.Checked Proofs.GoLiteP Proofs.SafeP Proofs.CheckedP Gen.FuncTerms Model.Detectors Proofs.TranslateP.
+  Model.Zip Model.Ole Model.Mkv Model.Tar Model.Checked Proofs.GoLiteP Proofs.SafeP Proofs.CheckedP Gen.FuncTerms Model.Detectors Proofs.TranslateP
+  Model.GoRes Model.SrcDetect Gen.SrcFuncs Proofs.SrcOleP Proofs.SrcZipP Proofs.SrcMkvP Proofs.SrcTarP Proofs.SrcAllP.
 
 (* the bounds analysis is sound: a term it accepts never indexes or slices outside the header *)
 Theorem C01_bounds_analysis_sound : forall p raw, safe p = true -> evalp p raw <> Panic.
@@ -97,6 +98,40 @@ Proof.
   - apply zip_contains_ok. - apply crx_ok. - apply match_ole_clsid_ok. - apply ppt_ok. - apply matroska_ok. - apply tar_ok.
 Qed.
 Print Assumptions C01_offset_detectors_never_panic.
+
+(* the same detectors AS TRANSLATED FROM THE CURRENT SOURCE (Gen/SrcFuncs.v, translator harness/gores.go: each Go
+   statement one binding, every index / slice expression and binary.X.Uint32 call with its run-time check, Go's
+   evaluation order, uint32 / uint8 wrap-around, loops over the input as range_loop, `for cond` as while_loop with
+   fuel): all twenty-two functions are inside the translator's fragment ... *)
+Theorem C01_offset_detectors_all_translated : src_untranslated = [].
+Proof. reflexivity. Qed.
+Print Assumptions C01_offset_detectors_all_translated.
+
+(* ... and for every input made of bytes, at every limit, none of the fifteen detectors reaches Panic (an index or
+   slice out of range, a Uint32 on fewer than four bytes, exhausted loop fuel), and each computes exactly the model
+   that the tree walk evaluates for its node *)
+Theorem C01_source_offset_detectors_never_panic : forall name f raw (l : N), bytes_ok raw = true -> In (name, f) src_dets ->
+  exists h, assoc name hand_models = Some h /\ f raw (Z.of_N l) = Val (h raw l).
+Proof. exact src_dets_equal_models. Qed.
+Print Assumptions C01_source_offset_detectors_never_panic.
+
+(* the helpers on which no byte-range hypothesis is needed: any list of numbers *)
+Theorem C01_source_helpers_never_panic :
+  (forall inp clsid, src_matchOleClsid inp clsid = Val (match_ole_clsid inp clsid)) /\
+  (forall raw sig mso, src_zipContains raw sig mso = Val (zip_contains skip_files raw sig mso)) /\
+  (forall raw l, src_CRX raw l = Val (crx_det raw)) /\
+  (forall fld, src_tarParseOctal fld = Val (match tar_parse_octal fld with Some r => Z.of_N r | None => (-1)%Z end)).
+Proof.
+  repeat split; intros.
+  - apply src_matchOleClsid_ok. - apply src_zipContains_ok. - apply src_CRX_ok. - apply src_tarParseOctal_ok.
+Qed.
+Print Assumptions C01_source_helpers_never_panic.
+
+(* non-vacuity of the translation: the translated CRX really evaluates its slices (a 15-byte input is refused by the
+   guard, not by luck), and the partial operations do panic when unguarded *)
+Example C01_source_crx_runs :
+  src_CRX [67;114;50;52;0;0;0;0;0;0;0;0;0;0;0;0;80;75;3;4]%N 0%Z = Val true /\ zslice [1;2;3]%N 2 5 = @Panic bytes /\ zu32le [1;2;3]%N = Panic.
+Proof. vm_compute. repeat split; reflexivity. Qed.
 
 (* non-vacuity: the same transliteration with CRX's guard weakened (seeded change C01-1 compares against len+1)
    does reach Panic on a 16-byte input whose length fields sum to 1 *)
